@@ -116,6 +116,8 @@ let clauses_textdiff h impl =
       ("reconstruct_new", vals (not_tag "D") = n);
       ("change_index_shape", idx_ok chs 0 0);
       ("perop_same", get ih "perop_same" = "1");
+      (* TextDiff::from_lines/from_words/from_chars/from_unicode_words/from_graphemes = the default configuration *)
+      ("ctor_same", get_def ih "ctor_same" "1" = "1");
       ("ops_loose", loose);
       ("alg_reported", get ih "alg" = get h "alg");
       ("newline_flag", get ih "nt" = (match nlo with "0" -> "0" | "1" -> "1" | _ -> if kind = "lines" then "1" else "0")) ]
@@ -299,6 +301,8 @@ let clauses_inline h impl =
         ops per_op;
     [ ("no_panic", true);
       ("inline_same_shape", !ok_shape);
+      (* iter_inline_changes(op) = iter_inline_changes_deadline(op, call time + 500 ms) *)
+      ("inline_default_entry", get_def ih "default_ok" "1" = "1");
       ("inline_concat_line", !ok_concat);
       ("inline_emph_only_replace", !ok_emph);
       ("inline_no_newline_emph", !ok_nl);
